@@ -139,10 +139,10 @@ def chains_and_guards(ctx) -> None:
         if len(gs) == 1 and gs[0][1]:  # raised when the (single) condition holds
             conds.append(core.src(gs[0][0]))
     want = {
-        'double': any('port in cls._PORTS[subscriber]' in c for c in conds),
-        'apply/train': any('isinstance(port, Apply) ^' in c for c in conds),
-        'trained publishes': any('isinstance(port, (Train, Label))' in c and 'subscriber.output' in c for c in conds),
-        'future subscribing': any('isinstance(subscriber, atomic.Future)' in c for c in conds),
+        'double': any(c == 'port in cls._PORTS[subscriber]' for c in conds),
+        'apply/train': any(c.startswith('cls._PORTS[subscriber] and isinstance(port, Apply) ^ any(') for c in conds),
+        'trained publishes': any(c == 'isinstance(port, (Train, Label)) and any(subscriber.output)' for c in conds),
+        'future subscribing': any(c == 'isinstance(subscriber, atomic.Future)' for c in conds),
     }
     for k, v in want.items():
         ctx.check(v, 'C11.guard', sn, f'subscription check present: {k}', sn.node, key=f'Subscription:{k}')
